@@ -21,8 +21,8 @@
                               without repetitions, union members = the chain's member types from the base outward
                               without Equal repetitions (mss: the resolved members of every link, nearest first).
 
-   Small look-ups that are not what the property is about are shared with the model (find_mod: the loaded module of
-   a name, C13; assoc_first: the first import statement with a prefix; getPrefix: split at the first colon). *)
+   Small look-ups that are not what the property is about are shared with the model (FindModule: the loaded module an
+   import / include statement names -- its pinned revision, else the latest --, C13; assoc_first: the first import statement with a prefix; getPrefix: split at the first colon). *)
 From Coq Require Import Ascii String List Bool Arith NArith.
 From GY Require Import Base.Outcome Model.Types.
 Import ListNotations.
@@ -60,7 +60,7 @@ Inductive binds_local (S : schema) (st : site) (name : string) : tdkey -> typede
 
 (* the module imported by module m under prefix pfx *)
 Definition imported (S : schema) (m : nat) (pfx : string) (root : nat) : Prop :=
-  exists M n, nth_error S m = Some M /\ assoc_first pfx (m_imports M) = Some n /\ find_mod S false n = Some root.
+  exists M imp, nth_error S m = Some M /\ assoc_first pfx (m_imports M) = Some imp /\ FindModule S false imp = Some root.
 
 Inductive binds (S : schema) (st : site) (tname : string) : tdkey -> typedef -> Prop :=
 | B_local : forall pfx name key td,
